@@ -65,7 +65,7 @@ func H_C09_keep() {
 	dn, d2 := n.Dd, n2.Dd
 	A(dn != dn || d2 == dn, "dd")
 	// carrying: the nested Inner carries unknown fields exactly when b or c was present
-	A(o.Inn.CarryingUnknownFields() == (n.Inn.B != nil || n.Inn.C != nil), "nested struct reports unknown fields exactly when it carries them")
+	A(o.Inn.CarryingUnknownFields() == (n.Inn.B != nil || n.Inn.C != nil || n.Inn.IsSetTag()), "nested struct reports unknown fields exactly when it carries them")
 	A(o.CarryingUnknownFields(), "root carries the added default-requiredness fields")
 	if n.Arm != nil {
 		A(o.Arm != nil && o.Arm.CarryingUnknownFields() == (n.Arm.Y != nil), "union reports the unknown member")
@@ -164,7 +164,7 @@ func H_C09_keep_kinds() {
 	A((n2.Nbin == nil) == (n.Nbin == nil) && string(n2.Nbin) == string(n.Nbin), "added binary")
 	A(len(n2.Nset) == len(n.Nset) && (len(n.Nset) == 0 || n2.Nset[0] == n.Nset[0]), "added set")
 	A((n2.Emp == nil) == (n.Emp == nil), "added struct without members")
-	A(o.Inn.CarryingUnknownFields() == (n.Inn.Flag != nil), "nested struct carries exactly the added bool")
+	A(o.Inn.CarryingUnknownFields() == (n.Inn.Flag != nil || n.Inn.IsSetTag()), "nested struct carries exactly what was added")
 	zzrt.Cover("end")
 }
 
